@@ -12,8 +12,18 @@ use std::path::PathBuf;
 
 pub type AmtMap = BTreeMap<String, Decimal>;
 
+thread_local! {
+    /// Power of ten that every number of the behaviour being replayed is multiplied with (inputs and expectations alike).
+    /// Book-keeping without declared precisions, costs or lots is homogeneous: scaling every amount by the same positive
+    /// factor scales every balance and changes no verdict, so the Plain behaviours are replayed a second time far from
+    /// the small integers of the bounded model (see `replay`).
+    static MAGNITUDE: std::cell::Cell<u32> = const { std::cell::Cell::new(0) };
+}
+
 pub fn dec(v: &Value) -> Decimal {
-    Decimal::new(v["m"].as_i64().unwrap(), v["s"].as_u64().unwrap() as u32)
+    let d = Decimal::new(v["m"].as_i64().unwrap(), v["s"].as_u64().unwrap() as u32);
+    let k = MAGNITUDE.with(|m| m.get());
+    if k == 0 { d } else { d * Decimal::from_i128_with_scale(10i128.pow(k), 0) }
 }
 
 pub fn dec_str(v: &Value) -> String {
@@ -400,7 +410,23 @@ pub fn classes(rec: &Value) -> Vec<String> {
 
 /// Compares the code's outcome on `rec.input` with `rec.expect`.
 pub fn replay(idx: usize, rec: &Value) -> Value {
-    replay_with(idx, rec, false)
+    let mut res = replay_with(idx, rec, false);
+    // the same behaviour with every amount multiplied by 10^15 (still far inside the decimal range, sums included)
+    if rec["scenario"] == "Plain" && res["ok"] == true {
+        MAGNITUDE.with(|m| m.set(15));
+        let big = replay_with(idx, rec, false);
+        MAGNITUDE.with(|m| m.set(0));
+        if big["ok"] != true {
+            res["ok"] = json!(false);
+            let vs: Vec<Value> = big["viol"].as_array().cloned().unwrap_or_default().into_iter().map(|mut v| {
+                v["msg"] = json!(format!("with every amount multiplied by 10^15: {}", v["msg"].as_str().unwrap_or("")));
+                v
+            }).collect();
+            res["viol"] = json!(vs);
+            res["observed_scaled"] = big["observed"].clone();
+        }
+    }
+    res
 }
 
 pub fn replay_with(_idx: usize, rec: &Value, format_first: bool) -> Value {
